@@ -155,43 +155,93 @@ func gatesOf(fi *eng.FuncInfo) []acpGate {
 	return out
 }
 
-// gatedAt: every path from the entry of fi to target takes the true edge of a gate with the
-// required permission.
+// gatedAt: the target is reached only after a permission check of the required kind answered true:
+// (a) every path from the entry of fi to the target passes the assignment that binds the check's
+// result (so no other definition of that variable — a preset `ok := true`, a skipped call — can
+// reach the target), and (b) from that assignment on, with the result assumed FALSE and every branch
+// condition evaluated three-valued under that assumption, the target is unreachable. (Evaluating
+// under "false" rather than pruning the edges that agree with "true" matters for compound
+// conditions: in `if !ok && other { return }` the not-taken edge is also passable with ok == false.)
 func gatedAt(fi *eng.FuncInfo, flow *eng.FlowGraph, target ast.Node, perm string) bool {
 	info := fi.Pkg.TypesInfo
-	var oks []types.Object
+	var gates []acpGate
 	for _, g := range gatesOf(fi) {
 		if g.perm == perm && g.ok != nil {
-			oks = append(oks, g.ok)
+			gates = append(gates, g)
 		}
 	}
-	if len(oks) == 0 {
+	if len(gates) == 0 {
 		return false
 	}
 	pt, found := flow.PointOf(target)
 	if !found {
 		return true
 	}
-	reach := flow.ReachesWithout(pt, func(ast.Node) bool { return false }, func(cond ast.Expr, taken bool) bool {
-		for _, ok := range oks {
+	noACP := func(cond ast.Expr, taken bool) bool {
+		// with document ACP not configured there is nothing to check: that edge is not an ungated route
+		return strings.HasSuffix(eng.ExprStr(ast.Unparen(cond)), ".documentACP.HasValue()") && !taken
+	}
+	for _, g := range gates {
+		if deniedUnreachable(info, flow, fi.Decl.Body, g.call, g.ok, pt, noACP) {
+			return true
+		}
+	}
+	return false
+}
+
+// deniedUnreachable implements (a) and (b) of gatedAt for one check call binding okVar.
+func deniedUnreachable(info *types.Info, flow *eng.FlowGraph, body *ast.BlockStmt, check *ast.CallExpr, okVar types.Object, target eng.Point, prune func(ast.Expr, bool) bool) bool {
+	as := assignOf(body, check)
+	if as == nil {
+		return false
+	}
+	isGate := func(nd ast.Node) bool { return nd == ast.Node(as) }
+	// (a) no path to the target avoids the check
+	if flow.ReachesWithout(target, isGate, func(cond ast.Expr, taken bool) bool {
+		return prune == nil || !prune(cond, taken)
+	}) {
+		return false
+	}
+	// (b) with the check's answer false the target is unreachable from the check
+	gp, ok := flow.PointOf(as)
+	if !ok {
+		return false
+	}
+	reached := flow.Forward(gp, false, eng.Walk{
+		Visit: func(p eng.Point, nd ast.Node) eng.Action {
+			if p == target {
+				return eng.Hit
+			}
+			// the variable is bound anew: the knowledge ends here
+			if a2, ok := nd.(*ast.AssignStmt); ok && a2 != as {
+				for _, l := range a2.Lhs {
+					if eng.ObjOf(info, l) == okVar {
+						return eng.Cut
+					}
+				}
+			}
+			return eng.Continue
+		},
+		Edge: func(cond ast.Expr, taken bool) bool {
+			if prune != nil && prune(cond, taken) {
+				return false
+			}
 			t := eng.EvalBool(info, cond, func(e ast.Expr) eng.Tri {
-				if eng.ObjOf(info, e) == ok {
-					return eng.True
+				if eng.ObjOf(info, e) == okVar {
+					return eng.False
 				}
 				return eng.Unknown
 			})
-			// with document ACP not configured there is nothing to check: that edge is not an ungated route
-			if strings.HasSuffix(eng.ExprStr(ast.Unparen(cond)), ".documentACP.HasValue()") && !taken {
-				return false
+			switch t {
+			case eng.True:
+				return taken
+			case eng.False:
+				return !taken
 			}
-			// the edge consistent with ok==true is forbidden for the "ungated" search
-			if (t == eng.True && taken) || (t == eng.False && !taken) {
-				return false
-			}
-		}
-		return true
+			return true
+		},
 	})
-	return !reach
+	return !reached
 }
 
 // acpGateExempt: writers that need no prior permission check.
